@@ -18,7 +18,9 @@ func (p *Pool) Stop() {
 	}
 
 	verifhook.Point("st.beforeCancel")
+	p.sendM.Lock()
 	p.cancel()
+	p.sendM.Unlock()
 	p.sendWg.Wait()
 	p.runWg.Wait()
 
